@@ -91,7 +91,7 @@ theorem recBound (p : Prog) : RecBound p := by
       | stop m s => exact hb
       | panic m s => exact hb
       | fuel => exact hb
-  | errorf m k ih => intro ws ts; simp only [Prog.run]; exact ih ws _
+  | errorf m k ih => intro ws ts; simp only [Prog.run]; exact bounded_congr (ih ws _) rfl (by simp) (by simp)
   | failOnError site k ih =>
     intro ws ts
     simp only [Prog.run]
